@@ -129,6 +129,7 @@ func runTLSScenario(rec *recorder, id string, events []tlsEvent, cas map[string]
 	rec.emit(map[string]any{"ev": "treset", "scenario": id})
 	var loaded []loadedCfg
 	dirty, refreshing := false, false
+	rewrites := 0
 	ptrs := map[*tls.Config]string{}
 	observe := func() []any {
 		out := []any{}
@@ -177,6 +178,12 @@ func runTLSScenario(rec *recorder, id string, events []tlsEvent, cas map[string]
 			}
 			if err := os.WriteFile(file, content, 0o600); err != nil {
 				return err
+			}
+			rewrites++
+			if rewrites%2 == 0 {
+				// a roll-back (mv of a backup, cp -p): the new content carries an OLDER modification time than the one it replaces
+				old := time.Now().Add(-time.Duration(rewrites) * time.Hour)
+				_ = os.Chtimes(file, old, old)
 			}
 			dirty = true
 		case "wait":
